@@ -5,6 +5,7 @@
 #include "canon.hpp"
 #include "s1.hpp"
 #include "sp.hpp"
+#include "built.hpp"
 
 #include <dirent.h>
 
@@ -48,6 +49,7 @@ inline std::string entry_bytes(const Entry& e, const std::string& repo) {
 	for (auto& v : e1::all_versions()) if (e.version == v.name) vc = &v;
 	if (!vc) return "";
 	e1::Script none;
+	if (e.type.rfind("built:", 0) == 0) return built::build(e.type.substr(6), *vc);
 	if (e.type.rfind("chain:", 0) == 0) {
 		for (auto& ch : sp::chains())
 			if (e.type == std::string("chain:") + ch.name) { sp::Built b = sp::build(ch, *vc, 0, none, true); return b.ok ? b.file : std::string(); }
@@ -74,6 +76,16 @@ inline std::vector<Entry> corpus(const std::string& repo, bool all_versions, siz
 			for (auto vn : ch.versions) {
 				Entry e;
 				e.type = std::string("chain:") + ch.name;
+				e.version = vn;
+				e.label = e.type + "@" + vn;
+				e.keyname = e.label;
+				r.push_back(e);
+			}
+		// API-built multi-shape models
+		for (auto& bm : built::models())
+			for (auto vn : bm.versions) {
+				Entry e;
+				e.type = std::string("built:") + bm.name;
 				e.version = vn;
 				e.label = e.type + "@" + vn;
 				e.keyname = e.label;
